@@ -8,10 +8,12 @@ out = ["# Seeded changes written by independent sub-agents", "",
        "applies/builds/existing suite/demo with and without, what the change needs to manifest, and the verdict of my quick checks).",
        "Re-run any of them with `python3 tools/seedcheck.py <ID> [--props Cxx,Cyy]` (needs the agent's files under /tmp/seed) or",
        "`tools/mutcheck.sh <PROP> seeded/<ID>/patch.diff`.", "",
-       "| Seed | needs to manifest | verdicts (quick tier, after strengthening) |", "|---|---|---|"]
+       "`python3 tools/seedrecheck.py <ID>` re-runs the quick check of a stored change and keeps the first measurement.", "",
+       "| Seed | needs to manifest | verdicts (quick tier, after strengthening) | first measurement (where kept) |", "|---|---|---|---|"]
 for m in rows:
     v = "; ".join("%s: %s %s" % (k, x['verdict'], x['signature'].replace('test=', '').replace('signature=', '')) for k, x in m.get('checks', {}).items())
-    out.append("| %s | %s | %s |" % (m['name'], m.get('needs_to_manifest', '').replace('\n', ' ').replace('|', '/'), v))
+    f = "; ".join("%s: %s" % (k, x['verdict']) for k, x in m.get('checks_first_run', {}).items())
+    out.append("| %s | %s | %s | %s |" % (m['name'], m.get('needs_to_manifest', '').replace('\n', ' ').replace('|', '/'), v, f))
 out += ["", "History of misses (what was strengthened after a miss) is in DESIGN.md §9.", ""]
 open('/verif/seeded/README.md', 'w').write("\n".join(out))
 print(len(rows), "seeds")
